@@ -27,7 +27,7 @@ func tblReport(c *evid.Ctx, prop string, fs []tbl.Finding) {
 
 func tableWorker(c *evid.Ctx, prop string) {
 	r := c.R.Fork("table")
-	nh := c.Scale(300, 20000)
+	nh := c.Scale(300, 3200)
 	events := 60
 	if !c.Quick() {
 		events = 200
@@ -81,7 +81,7 @@ func tableWorker(c *evid.Ctx, prop string) {
 		d.Close()
 	}
 	// Floods: a full bucket of good entries must survive any number of fresh IDs aimed at it.
-	nf := c.Scale(50, 2000)
+	nf := c.Scale(50, 400)
 	for f := 0; f < nf && c.NumViolations() < 20; f++ {
 		d, err := tbl.NewDriver(r.Fork("flood"), false, nil, false)
 		if err != nil {
